@@ -171,7 +171,9 @@ func (core *JApiCore) processEOF() *jerr.JApiError {
 	if je := core.processCurrentDirective(); je != nil {
 		return je
 	}
-	if core.HasUnclosedExplicitContext() {
+	// The end of an included file is not the end of the input: a parenthesis opened in the including file
+	// (or in this one) may still be closed after the INCLUDE.
+	if core.scannersStack.Empty() && core.HasUnclosedExplicitContext() {
 		return core.japiError("not all explicit contexts are closed", core.scanner.CurrentIndex()-1)
 	}
 	return nil
